@@ -29,6 +29,12 @@ claimed = {
  "C16": dict(design="5/C16",
    text="Bounded symbolic model checking of Check() against a reference predicate on every directory of up to 2 (quick) / 3 (thorough) entries drawn from a menu of valid/invalid names, files or sub-directories, supported/unsupported/empty contents, .tmp as directory or file, under every listing order; Init succeeds exactly on empty directories and yields a valid store; one arbitrary operation from a valid store preserves validity, never leaves two files for one user and leaves the work area empty.",
    note="Trusted: as C01; listing order modelled as a free permutation. CLI exit-status wiring is outside this check."),
+ "C08": dict(design="5/C08",
+   text="Solver-decided crash analysis of the file-system event trace produced by symbolically executing the real AddUser / UpdateUser / Init over the in-engine POSIX model: the crash instant, the persistence bit of every directory-entry effect and the persisted prefix of every written chunk are solver variables (process-kill model: everything before the crash applied; power-loss model: un-fsynced data and directory operations lost in any allowed combination). Obligations: the target name is absent / an empty reservation (add), bound to the complete old inode, or to the complete new inode; no hash file is modified in place; only the target's names and the work area are touched.",
+   note="Trusted: the vfs event trace equals the syscall trace (checked against strace in probes); the abstract persistence model (rename atomic; fsync barriers per inode / directory). Content of the new record is C14/C15's subject. Counterexamples are model-level until the strace trace validation is wired (then exit 1); until then a violated obligation is reported as inconclusive (exit 2)."),
+ "C09": dict(design="5/C09",
+   text="Same machinery as C08 with the crash instant fixed after the operation's successful return: for AddUser, UpdateUser, Init, SetAdmin and RemoveUser every persistence assignment allowed by the model shows the acknowledged effect, and no record is bound to its final name before its content is durable.",
+   note="Trusted: as C08."),
 }
 NA_DEFAULT = "check not built yet (framework under construction); see DESIGN.md section 5 for the plan"
 na_reason = {}
